@@ -41,6 +41,11 @@ def opOk (ord : Bool) : BinOp → Bool
     `isFirst` / `isLast` only), so the fragment does not read variables of such names. -/
 def isHelper (k : Bytes) : Bool := sIndexSuffix.isSuffixOf k || sLastIndexSuffix.isSuffixOf k
 
+/-- the keys of a map literal -/
+def itemKeys : MapItems → List Bytes
+  | .nil => []
+  | .cons k _ r => k :: itemKeys r
+
 mutual
 /-- the expression fragment, with (`ord = true`) or without the four ordering comparisons -/
 def fragO (ord : Bool) : Expr → Bool
@@ -55,6 +60,8 @@ def fragO (ord : Bool) : Expr → Bool
   | .neg _ a => fragO ord a
   | .bin op _ a b => opOk ord op && fragO ord a && fragO ord b
   | .tern _ c a b => fragO ord c && fragO ord a && fragO ord b
+  | .list _ items => listFragO ord items
+  | .map _ items => mapFragO ord items
   | _ => false
 /-- access chains: `.k`, `.N`, `[e]` and the null-safe forms, the key expressions in the fragment -/
 def accFrag (ord : Bool) : AccessList → Bool
@@ -62,6 +69,14 @@ def accFrag (ord : Bool) : AccessList → Bool
   | .cons (.key _ _ _) r => accFrag ord r
   | .cons (.index _ _ _) r => accFrag ord r
   | .cons (.expr _ _ e) r => fragO ord e && accFrag ord r
+/-- the items of a list literal (the arguments of a function) -/
+def listFragO (ord : Bool) : ExprList → Bool
+  | .nil => true
+  | .cons e r => fragO ord e && listFragO ord r
+/-- the items of a map literal: pairwise different keys -/
+def mapFragO (ord : Bool) : MapItems → Bool
+  | .nil => true
+  | .cons k e r => fragO ord e && !(itemKeys r).contains k && mapFragO ord r
 end
 
 /-- the fragment without `< > <= >=` (no hypothesis about the soft-float needed) -/
@@ -87,6 +102,27 @@ theorem bind_val {α β : Type} {o : Out α} {f : α → Out β} {b : β} (h : o
 theorem bind_err {α β : Type} {o : Out α} {f : α → Out β} (h : o.bind f = .error) :
     o = .error ∨ ∃ a, o = .val a ∧ f a = .error := by
   cases o <;> simp [Spec.Eval.Out.bind] at h ⊢; exact h
+
+/-- the keys of the value of a map literal are keys of the literal -/
+theorem evalMap_keys (s : Spec.Eval.Env) : ∀ (items : MapItems) (B : Spec.Eval.Binds), Spec.Eval.evalMap s items = .val B →
+    ∀ kv ∈ B, kv.1 ∈ itemKeys items
+  | .nil, B, h => by
+    rw [Spec.Eval.evalMap] at h; simp only [Out.val.injEq] at h; subst h; intro kv hkv; cases hkv
+  | .cons k e r, B, h => by
+    rw [Spec.Eval.evalMap] at h
+    obtain ⟨v, _, h⟩ := bind_val h
+    obtain ⟨Br, hr, h⟩ := bind_val h
+    simp only [Out.val.injEq] at h
+    subst h
+    intro kv hkv
+    rcases List.mem_cons.mp hkv with rfl | hkv
+    · simp [itemKeys]
+    · have := evalMap_keys s r Br hr kv (List.mem_filter.mp hkv).1
+      simp [itemKeys, this]
+
+theorem filter_ne_self (B : Spec.Eval.Binds) (k : Bytes) (h : ∀ kv ∈ B, kv.1 ≠ k) :
+    (B.filter fun kv => kv.1 != k) = B :=
+  List.filter_eq_self.mpr fun kv hkv => by simpa using h kv hkv
 
 /-- one access step, then the rest of the chain -/
 theorem step_cont {m : EEnv} {s : Spec.Eval.Env} (rest : AccessList) {ms : AStep} {ss : Spec.Eval.Step}
@@ -445,8 +481,32 @@ theorem eval_refines_spec_ord (ord : Bool) (hord : ord = true → OrdExact) : (e
           | float x => simp [absV] at herr
           | str x => simp [absV] at herr
   | .func .., hf => by simp [fragO] at hf
-  | .list .., hf => by simp [fragO] at hf
-  | .map .., hf => by simp [fragO] at hf
+  | .list _ items, hf => by
+    intro n
+    have ih := args_sim ord hord items (by simpa [fragO] using hf) n
+    rw [Spec.Eval.eval, evalE]
+    refine ⟨fun v hv => ?_, fun herr => ?_⟩
+    · obtain ⟨vs, hvs, hv⟩ := bind_val hv
+      obtain ⟨mvs, n', h1, h2⟩ := ih.1 vs hvs
+      simp only [Out.val.injEq] at hv
+      rw [h1]
+      exact ⟨_, _, rfl, by rw [← hv, ← h2]; rfl⟩
+    · rcases bind_err herr with h | ⟨vs, _, h⟩
+      · rw [ih.2 h]
+      · simp at h
+  | .map _ items, hf => by
+    intro n
+    have ih := map_sim ord hord items (by simpa [fragO] using hf) n
+    rw [Spec.Eval.eval, evalE]
+    refine ⟨fun v hv => ?_, fun herr => ?_⟩
+    · obtain ⟨B, hB, hv⟩ := bind_val hv
+      obtain ⟨kvs, n', h1, h2⟩ := ih.1 B hB
+      simp only [Out.val.injEq] at hv
+      rw [h1]
+      exact ⟨_, _, rfl, by rw [← hv, ← h2]; rfl⟩
+    · rcases bind_err herr with h | ⟨B, _, h⟩
+      · rw [ih.2 h]
+      · simp at h
 /-- an access chain on related bases -/
 theorem acc_sim (ord : Bool) (hord : ord = true → OrdExact) : (acc : AccessList) → accFrag ord acc = true →
     ∀ (ref : Value) (n : Nat),
@@ -499,6 +559,60 @@ theorem acc_sim (ord : Bool) (hord : ord = true → OrdExact) : (acc : AccessLis
         | null => simp only [str, Value.render, Value.toString]; exact (step_cont rest (access_other ref ns _ _) n1 ihr).2 herr
         | bool b => simp only [str, Value.render, Value.toString]; exact (step_cont rest (access_other ref ns _ _) n1 ihr).2 herr
         | float f => simp only [str, Value.render, Value.toString]; exact (step_cont rest (access_other ref ns _ _) n1 ihr).2 herr
+/-- the items of a list literal / the arguments of a function, left to right -/
+theorem args_sim (ord : Bool) (hord : ord = true → OrdExact) : (items : ExprList) → listFragO ord items = true → ∀ (n : Nat),
+    (∀ vs, Spec.Eval.evalList s items = .val vs → ∃ mvs n', evalArgs m items n = some (mvs, n') ∧ absL mvs = vs) ∧
+    (Spec.Eval.evalList s items = .error → evalArgs m items n = none)
+  | .nil, _, n => by
+    rw [Spec.Eval.evalList, evalArgs]
+    exact ⟨fun vs h => by simp only [Out.val.injEq] at h; exact ⟨[], n, rfl, by rw [← h]; rfl⟩, fun h => by simp at h⟩
+  | .cons e r, hf, n => by
+    simp only [listFragO, Bool.and_eq_true] at hf
+    have he := eval_refines_spec_ord ord hord e hf.1 n
+    rw [Spec.Eval.evalList, evalArgs]
+    refine ⟨fun vs hv => ?_, fun herr => ?_⟩
+    · obtain ⟨v, hv1, hv⟩ := bind_val hv
+      obtain ⟨vr, hv2, hv⟩ := bind_val hv
+      obtain ⟨mv, n1, h1, h2⟩ := he.1 v hv1
+      obtain ⟨mvs, n2, h4, h5⟩ := (args_sim ord hord r hf.2 n1).1 vr hv2
+      simp only [Out.val.injEq] at hv
+      rw [h1]; simp only [h4]
+      exact ⟨mv :: mvs, n2, rfl, by rw [← hv, absL, h2, h5]⟩
+    · rcases bind_err herr with h | ⟨v, hv1, herr⟩
+      · rw [he.2 h]
+      · obtain ⟨mv, n1, h1, _⟩ := he.1 v hv1
+        rw [h1]
+        rcases bind_err herr with h | ⟨vr, _, h⟩
+        · simp only [(args_sim ord hord r hf.2 n1).2 h]
+        · simp at h
+/-- the items of a map literal (pairwise different keys) -/
+theorem map_sim (ord : Bool) (hord : ord = true → OrdExact) : (items : MapItems) → mapFragO ord items = true → ∀ (n : Nat),
+    (∀ B, Spec.Eval.evalMap s items = .val B → ∃ kvs n', evalMapItems m items n = some (kvs, n') ∧ absK kvs = B) ∧
+    (Spec.Eval.evalMap s items = .error → evalMapItems m items n = none)
+  | .nil, _, n => by
+    rw [Spec.Eval.evalMap, evalMapItems]
+    exact ⟨fun B h => by simp only [Out.val.injEq] at h; exact ⟨[], n, rfl, by rw [← h]; rfl⟩, fun h => by simp at h⟩
+  | .cons k e r, hf, n => by
+    simp only [mapFragO, Bool.and_eq_true, Bool.not_eq_true', List.contains_eq_mem, decide_eq_false_iff_not] at hf
+    obtain ⟨⟨hfe, hk⟩, hfr⟩ := hf
+    have he := eval_refines_spec_ord ord hord e hfe n
+    rw [Spec.Eval.evalMap, evalMapItems]
+    refine ⟨fun B hv => ?_, fun herr => ?_⟩
+    · obtain ⟨v, hv1, hv⟩ := bind_val hv
+      obtain ⟨Br, hv2, hv⟩ := bind_val hv
+      obtain ⟨mv, n1, h1, h2⟩ := he.1 v hv1
+      obtain ⟨kvs, n2, h4, h5⟩ := (map_sim ord hord r hfr n1).1 Br hv2
+      simp only [Out.val.injEq] at hv
+      rw [h1]; simp only [h4]
+      refine ⟨(k, mv) :: kvs, n2, rfl, ?_⟩
+      rw [← hv, filter_ne_self Br k (fun kv hkv e => hk (e ▸ evalMap_keys s r Br hv2 kv hkv)), absK, h2, h5]
+    · rcases bind_err herr with h | ⟨v, hv1, herr⟩
+      · rw [he.2 h]
+      · obtain ⟨mv, n1, h1, _⟩ := he.1 v hv1
+        rw [h1]
+        rcases bind_err herr with h | ⟨Br, _, h⟩
+        · simp only [(map_sim ord hord r hfr n1).2 h]
+        · simp at h
 end
 
 /-- the model refines the specification on the scalar operator fragment (no ordering comparisons, no
@@ -700,5 +814,17 @@ example : evalE m1 (.dataRef 0 [120] (.cons (.key 0 false [122, 122]) (.cons (.k
   (eval_refines_spec_partial rel1 _ (by decide) 7).2 (by rfl)
 example : evalE m1 (.dataRef 0 [120] (.cons (.key 0 false [97]) (.cons (.key 0 false [107]) .nil))) 7 = .err :=
   (eval_refines_spec_partial rel1 _ (by decide) 7).2 (by rfl)
+
+/-! ### collection literals as values: `[1, ['q': $x.a[0]], []]` and `['k': [1, 2], 'j': $x.n]` -/
+
+def lit1 : Expr := .list 0 (.cons (.int 0 1) (.cons (.map 0 (.cons [113]
+  (.dataRef 0 [120] (.cons (.key 0 false [97]) (.cons (.index 0 false 0) .nil))) .nil)) (.cons (.list 0 .nil) .nil)))
+def lit2 : Expr := .map 0 (.cons [107] (.list 0 (.cons (.int 0 1) (.cons (.int 0 2) .nil)))
+  (.cons [106] (.dataRef 0 [120] (.cons (.key 0 false [110]) .nil)) .nil))
+
+example : ∃ mv n', evalE m1 lit1 7 = .ok mv n' ∧ absV mv = .list [.int 1, .map [([113], .int 10)], .list []] :=
+  (eval_refines_spec_partial rel1 lit1 (by decide) 7).1 _ (by rfl)
+example : ∃ mv n', evalE m1 lit2 7 = .ok mv n' ∧ absV mv = .map [([107], .list [.int 1, .int 2]), ([106], .null)] :=
+  (eval_refines_spec_partial rel1 lit2 (by decide) 7).1 _ (by rfl)
 
 end SoyVerif.Props.C01
